@@ -1,7 +1,7 @@
 """C17 (+ Serve-level part of C20, accept-loop part of C14): Lifecycle.tla model-checked for safety and liveness;
 TLC emits one schedule of environment actions per explored environment transition; each schedule is replayed on the
 real Serve with a fake listener, gates and a logical clock (harness `life`); Trace_Lifecycle.tla judges the observed order."""
-import json, os, random, re
+import json, os, random, re, tempfile, time
 from vf import *
 
 OPMAP = {"lclose": "lclose", "offer": "offer", "release": "release", "packet": "packet", "partial": "partial", "eof": "eof", "hrel": "hrel",
@@ -32,6 +32,44 @@ def controls(ctx):
             raise Inconclusive("Lifecycle.tla: defect %s does not break %s - the invariant would be vacuous:\n%s" % (d, inv, tail(r["out"], 20)))
         done[d] = inv
     return done
+
+
+def inductive(ctx, big=False):
+    """Apalache: the safety part of Lifecycle.tla as an inductive invariant (fixed number of connections, any number of
+    steps); two defect switches must break the inductive step. A tool failure is reported, never a verdict."""
+    import shutil as _sh, subprocess as _sp
+    if not _sh.which("apalache-mc"):
+        return {"status": "skipped: apalache-mc not found"}
+    d = ctx.specdir()
+    out = {"status": "ok", "runs": []}
+
+    def apa(cinit, init, inv, length, expect_ok):
+        od = tempfile.mkdtemp(prefix="apa-", dir=ctx.work)
+        cmd = ["apalache-mc", "check", "--out-dir=" + od, "--cinit=" + cinit, "--init=" + init, "--inv=" + inv, "--length=%d" % length, "Lifecycle.tla"]
+        t0 = time.time()
+        try:
+            r = _sp.run(cmd, cwd=d, capture_output=True, text=True, timeout=900)
+        except _sp.TimeoutExpired:
+            out["status"] = "skipped: apalache timeout"
+            return None
+        finally:
+            _sh.rmtree(od, ignore_errors=True)
+        ok = "EXITCODE: OK" in r.stdout
+        err = "EXITCODE: ERROR (12)" in r.stdout          # a counterexample
+        out["runs"].append({"cinit": cinit, "init": init, "inv": inv, "length": length, "holds": ok, "s": round(time.time() - t0, 1)})
+        if not ok and not err:
+            out["status"] = "skipped: apalache failed: " + tail(r.stdout + r.stderr, 5)
+            return None
+        if ok != expect_ok:
+            raise Inconclusive("Lifecycle.tla: Apalache %s --init=%s --inv=%s --length=%d gave %s (expected %s)" % (cinit, init, inv, length, "OK" if ok else "a counterexample", "OK" if expect_ok else "a counterexample"))
+        return ok
+
+    c = "CInit6" if big else "CInit"
+    for (ci, i0, iv, ln, exp) in [(c, "Init", "IndInv", 0, True), (c, "IndInv", "IndInv", 1, True), (c, "IndInv", "Safety", 0, True),
+                                  ("CInitNoWait", "IndInv", "IndInv", 1, False), ("CInitAddIn", "IndInv", "IndInv", 1, False)]:
+        if apa(ci, i0, iv, ln, exp) is None:
+            break
+    return out
 
 
 def burst_schedules(rng, n, rounds, width):
@@ -139,6 +177,8 @@ def collect(ctx, prop):
     S += [rand_schedule(rng, i) for i in range(nrand)]
     S += burst_schedules(rng, 200 if quick else 2000, 100, 16)
     ctl = controls(ctx)
+    ind = inductive(ctx, big=not quick)
+    ctx.log("Apalache inductive invariant: %s" % ind["status"])
     sf = ctx.path("sched.ndjson")
     with open(sf, "w") as f:
         for s in S:
@@ -173,7 +213,7 @@ def collect(ctx, prop):
     cov = {"states": ctx.tlc_distinct, "transitions": ctx.tlc_states, "traces_validated_against_impl": len(S),
            "evaluations": len(S), "distinct_nontrivial": len({json.dumps(s["steps"]) for s in S if len(s["steps"]) >= 3}),
            "rule": "one evaluation = one schedule of environment actions (offer, goroutine-start gate, packet, partial octet, EOF, handler gate, logical-clock tick, cancel, accept timeout, accept fault) replayed on the real Serve; TLC-emitted schedules (%d of %d) + pacing/fault schedules + seeded random ones; non-trivial = distinct schedule with >= 3 actions" % (len(scheds), total),
-           "samples": [S[0], S[-1]], "oracle_counts": cnt, "events": st["events"], "liveness_states": r1["distinct"], "spec_controls": ctl,
+           "samples": [S[0], S[-1]], "oracle_counts": cnt, "events": st["events"], "liveness_states": r1["distinct"], "spec_controls": ctl, "inductive_invariant": ind,
            "other_property_observations": sorted(others), "exhaustive": False}
     return cov, ["deadlines are simulated with a logical clock (no real waiting); the literal 10 s / 15 s are only required to be finite and armed at the right points",
                  "goroutine scheduling between two environment actions is left to the Go runtime (the harness waits until every server goroutine is parked)",
